@@ -83,6 +83,16 @@ func (c *Ctx) emit(cs Case) {
 	if len(c.samples) < 5 && len(text) < 600 {
 		c.samples = append(c.samples, text)
 	}
+	if cs.Mutate {
+		// whatever the suite: with every shared slice scribbled over, each object
+		// is still observed as at its creation
+		for i := range final {
+			if e.Early[i] != final[i] {
+				c.hit(id, cs, "object-changed", fmt.Sprintf("entry %d: was %s, now %s", i, short(e.Early[i]), short(final[i])))
+				break
+			}
+		}
+	}
 	if c.monitor != nil {
 		c.monitor(c, id, cs, e, final)
 	}
